@@ -323,3 +323,81 @@ def run_client(k, srv, seed):
         return {'log': log, 'final': final}, facts
     finally:
         w.close()
+
+
+def replay_client_schedule(k, sched, seed=0):
+    """spec -> code at L2: drive the real threaded Client under a schedule generated by TLC from
+    EioClientFineSim.  The hub runs in scripted mode: a task stops right after every primitive on
+    the send queue / websocket, and only the task named by the next schedule entry is resumed.
+    Returns the primitive log + final observation (same shape as run_client)."""
+    from . import cworld as CW
+    w = CW.make_client_world('sync', {}, seed=seed, preempt=False)
+    try:
+        hub = w.hub
+        cid = w.app_connect('ws')
+        w.calls[cid]['task'].proc = 'conn'
+        hub.child_proc = {('conn', '_write_loop'): 'wr', ('conn', '_read_loop_websocket'): 'rd'}
+        w.quiesce()
+        w.ws_accept(True)
+        w.quiesce()
+        w.ws_deliver(CW.open_wire('SID1', False, 4000, 4000, 'ok'))
+        w.quiesce()
+        cl = w.client
+        if cl.state != 'connected':
+            raise RuntimeError('client did not connect')
+        cq = cl.queue
+        conn = w.conns[-1]
+        hub.primlog = []
+        hub.scripted = cq
+        w.out = []
+        acc = []
+        tasks = {'app': w.calls[w.app_burst(k, 1, acc, then_disconnect=True)]['task'],
+                 'wr': next(t for t in hub.tasks if getattr(t, 'proc', None) == 'wr'),
+                 'rd': next(t for t in hub.tasks if getattr(t, 'proc', None) == 'rd')}
+        tasks['app'].proc = 'app'
+        for ent in sched:
+            p = ent['p']
+            if ent.get('silent'):
+                continue
+            if p == 'srv_closed':
+                hub.primlog.append({'t': 'env', 'op': 'srv_closed', 'item': '', 'q': 'env'})
+                w.ws_close()
+            elif p == 'srv_disconnects':
+                hub.primlog.append({'t': 'env', 'op': 'srv_disconnects', 'item': '', 'q': 'env'})
+                conn['state'] = 'closed'
+                conn['inq'].items.append(CW.pkt_frame('CLOSE'))
+                conn['inq'].unfinished_tasks += 1
+                conn['inq'].put(CW._CLOSED)
+            else:
+                try:
+                    hub.step(tasks[p])
+                except RuntimeError as e:
+                    raise RuntimeError('%s at schedule entry %d; log so far: %r' % (
+                        e, sched.index(ent), [(x['t'], x['op']) for x in hub.primlog][-8:]))
+        hub.scripted = None
+        # nothing may be left to do: the schedule ran every task to its end
+        leftover = [n for n, t in tasks.items() if not t.done]
+        log = []
+        for e in hub.primlog:
+            if e['op'] == 'task_done':
+                continue
+            if e['op'] == 'ret':
+                if e['t'] in ('app', 'wr', 'rd'):
+                    log.append({'t': e['t'], 'op': 'ret', 'item': ''})
+                continue
+            if e['q'] == 'env':
+                log.append({'t': 'env', 'op': e['op'], 'item': ''})
+            elif e['q'] == 'ws':
+                log.append({'t': e['t'], 'op': e['op'], 'item': e['item'] or ''})
+            elif e['q'] is cq:
+                it = e['item']
+                if e['op'] in ('put', 'get', 'put_enter'):
+                    it = w._tok_of_pkt(it)
+                log.append({'t': e['t'], 'op': e['op'], 'item': it if it is not None else ''})
+        hub.primlog = None
+        final = {'st': cl.state, 'ev': [e[5:] for e in w.events if e.startswith('disc:')],
+                 'tx': [o['f'] for o in w.out if o.get('k') == 'wstx'],
+                 'q': [w._tok_of_pkt(x) for x in cq.items]}
+        return {'log': log, 'final': final}, leftover
+    finally:
+        w.close()
